@@ -28,9 +28,9 @@ def new_state(return_column):
             "cur": {"cfa": None, "regs": {}}, "init": {"cfa": None, "regs": {}}, "stack": []}
 
 
-def evaluate(groups, return_column, byteorder, ptr_size):
+def evaluate(groups, return_column, byteorder, ptr_size, _seeded=False):
     out = []
-    st = None
+    st = copy.deepcopy(_SEED) if _seeded else None
     for gi, (key, directives) in enumerate(groups):
         started = False
         for name, args, sym in directives:
@@ -128,3 +128,26 @@ def evaluate(groups, return_column, byteorder, ptr_size):
 
 def _expr_bytes(items, byteorder, ptr_size):
     return b"".join(R.encode("op", it, byteorder, ptr_size) for it in items).hex()
+
+
+def resume(state, directives, return_column, byteorder="little", ptr_size=8):
+    """Apply directives to an existing state (or None) and return the new
+    state (None when the procedure was closed).  Raises Reject."""
+    st = copy.deepcopy(state)
+    # run the single-pass interpreter with the state pre-seeded
+    groups = [((0,), directives)]
+    return _evaluate_from(st, groups, return_column, byteorder, ptr_size)[-1][1]
+
+
+def _evaluate_from(st0, groups, return_column, byteorder, ptr_size):
+    # small trampoline: evaluate() starts from "outside a procedure"; to resume
+    # inside one we temporarily rebuild the state through a private entry.
+    global _SEED
+    _SEED = st0
+    try:
+        return evaluate(groups, return_column, byteorder, ptr_size, _seeded=True)
+    finally:
+        _SEED = None
+
+
+_SEED = None
